@@ -1,5 +1,6 @@
 """Expression and call semantics of engine P (second half of the symbolic executor)."""
 import ast
+import z3 as _z3
 from z3 import (And, Or, Not, Implies, If, BoolVal, IntVal, RealVal, Const, substitute, ForAll, Exists, Select, Store, Int,
                 IntSort, RealSort, BoolSort, is_true, is_false, simplify, ToReal, Function, MultiPattern, K)
 from .types import *
@@ -133,6 +134,8 @@ class FullEngine(Engine):
         return self.coerce(st, v, t)
 
     def binop(self, st, op, a, b, what=''):
+        if isinstance(op, ast.Mult) and isinstance(a, PTup) and isinstance(b, PV) and isinstance(b.t, TInt) and _z3.is_int_value(_z3.simplify(b.term)):
+            return PTup(list(a.items) * max(0, _z3.simplify(b.term).as_long()))          # (x,) * 3 with a literal count
         if self.is_opq(a) or self.is_opq(b):
             arith = isinstance(op, (ast.Add, ast.Sub, ast.Mult, ast.Div))
             other = b if self.is_opq(a) else a
@@ -196,6 +199,7 @@ class FullEngine(Engine):
                     x, y = self.coerce(st, a, REAL), self.coerce(st, b, REAL)
                     cs.append({ast.Lt: x < y, ast.LtE: x <= y, ast.Gt: x > y, ast.GtE: x >= y}[type(op)]); continue
                 r = self.opq(st, 'cmp_' + type(op).__name__, [a if self.is_opq(a) else PV(OPQ, self.coerce(st, a, OPQ)), b if self.is_opq(b) else PV(OPQ, self.coerce(st, b, OPQ))])
+                if len(e.ops) == 1: return r          # a library value (possibly element-wise, e.g. Series >= x); truth contexts read its truth value
                 cs.append(OpqTruth(r.term)); continue
             if isinstance(a, PNone) or isinstance(b, PNone):
                 if isinstance(op, (ast.Eq, ast.NotEq)):
